@@ -235,4 +235,234 @@ theorem dedup_assign {O : List (String × Option Nat)} (h : consistentOccs O = t
     simpa using this
   · exact assignCodes_eq_assignFree _ _ 256
 
+/-! ## the terminal table when a name is declared with and without code -/
+
+theorem explicitConsistentOccs_iff {O : List (String × Option Nat)}
+    (h : explicitConsistentOccs O = true) :
+    ∀ q ∈ O, ∀ p ∈ O, q.1 = p.1 → ∀ k k', q.2 = some k → p.2 = some k' → k = k' := by
+  unfold explicitConsistentOccs at h
+  simp only [List.all_eq_true, Bool.or_eq_true, bne_iff_ne, ne_eq, beq_iff_eq,
+    Option.isNone_iff_eq_none] at h
+  intro q hq p hp hn k k' hk hk'
+  rcases h q hq p hp with ((h1 | h1) | h1) | h1
+  · exact absurd hn h1
+  · rw [hk] at h1; cases h1
+  · rw [hk'] at h1; cases h1
+  · rw [hk, hk'] at h1; exact Option.some.inj h1
+
+theorem consistentOccs_explicit {O : List (String × Option Nat)} (h : consistentOccs O = true) :
+    explicitConsistentOccs O = true := by
+  have hc := consistentOccs_iff h
+  unfold explicitConsistentOccs
+  simp only [List.all_eq_true, Bool.or_eq_true, bne_iff_ne, ne_eq, beq_iff_eq]
+  intro p hp q hq
+  by_cases hn : p.1 = q.1
+  · exact Or.inr (hc p hp q hq hn)
+  · exact Or.inl (Or.inl (Or.inl hn))
+
+theorem explicitCode_some {O : List (String × Option Nat)} {n : String} {k : Nat}
+    (h : explicitCode O n = some k) : ∃ q ∈ O, q.1 = n ∧ q.2 = some k := by
+  obtain ⟨q, hq, hf⟩ := List.exists_of_findSome?_eq_some h
+  by_cases hn : q.1 = n
+  · exact ⟨q, hq, hn, by simpa [hn] using hf⟩
+  · have : (q.1 == n) = false := by simpa using hn
+    simp [this] at hf
+
+theorem explicitCode_none {O : List (String × Option Nat)} {n : String}
+    (h : explicitCode O n = Option.none) : ∀ q ∈ O, q.1 = n → q.2 = Option.none := by
+  intro q hq hn
+  have := List.findSome?_eq_none_iff.mp h q hq
+  simpa [hn] using this
+
+/-- **meaning of `explicitCode`**: with consistent explicit codes it is the code of any
+occurrence that has one -/
+theorem explicitCode_of_occ {O : List (String × Option Nat)} (h : explicitConsistentOccs O = true)
+    {q : String × Option Nat} (hq : q ∈ O) {k : Nat} (hk : q.2 = some k) :
+    explicitCode O q.1 = some k := by
+  cases hc : explicitCode O q.1 with
+  | none =>
+    have := explicitCode_none hc q hq rfl
+    rw [hk] at this; cases this
+  | some k' =>
+    obtain ⟨p, hp, hpn, hpk⟩ := explicitCode_some hc
+    rw [explicitConsistentOccs_iff h q hq p hp hpn.symm k k' hk hpk]
+
+theorem firstOccs_subset (O : List (String × Option Nat)) :
+    ∀ seen, ∀ p ∈ firstOccs O seen, p ∈ O := by
+  induction O with
+  | nil => intro seen p hp; cases hp
+  | cons a rest ih =>
+    intro seen p hp
+    unfold firstOccs at hp
+    split at hp
+    · exact List.mem_cons_of_mem _ (ih _ p hp)
+    · rcases List.mem_cons.mp hp with rfl | hp
+      · exact List.mem_cons_self
+      · exact List.mem_cons_of_mem _ (ih _ p hp)
+
+/-- the names of the first occurrences are the distinct names -/
+theorem firstOccs_names (O : List (String × Option Nat)) : ∀ seen,
+    (firstOccs O seen).map (·.1) =
+      (distinctNames (O.map (·.1))).filter (fun m => !seen.contains m) := by
+  induction O with
+  | nil => intro seen; rfl
+  | cons p rest ih =>
+    intro seen
+    have hd : distinctNames ((p :: rest).map (·.1)) =
+        p.1 :: (distinctNames (rest.map (·.1))).filter (fun m => m != p.1) := rfl
+    rw [hd, firstOccs, List.filter_cons]
+    by_cases hs : seen.contains p.1 = true
+    · have hs' : p.1 ∈ seen := by simpa using hs
+      rw [if_pos hs, if_neg (by simpa using hs'), ih, List.filter_filter]
+      apply List.filter_congr
+      intro m _
+      by_cases hm : m = p.1
+      · subst hm; simp [hs']
+      · simp [hm]
+    · rw [if_neg hs, if_pos (by simpa using hs), List.map_cons, ih, List.filter_filter]
+      congr 1
+      apply List.filter_congr
+      intro m _
+      by_cases hm : m = p.1 <;> simp [hm]
+
+/-- on consistent occurrences the general reading is the old one -/
+theorem resolvedOccs_consistent {O : List (String × Option Nat)} (h : consistentOccs O = true) :
+    resolvedOccs O = firstOccs O [] := by
+  unfold resolvedOccs
+  conv => rhs; rw [← List.map_id (firstOccs O [])]
+  apply List.map_congr_left
+  intro p hp
+  have hpO := firstOccs_subset O [] p hp
+  obtain ⟨n, k⟩ := p
+  simp only [id]
+  congr 1
+  cases k with
+  | some k => exact explicitCode_of_occ (consistentOccs_explicit h) hpO rfl
+  | none =>
+    cases hc : explicitCode O n with
+    | none => rfl
+    | some k' =>
+      obtain ⟨q, hq, hqn, hqk⟩ := explicitCode_some hc
+      have := consistentOccs_iff h q hq _ hpO hqn
+      rw [hqk] at this; cases this
+
+theorem termTableMixed_consistent {O : List (String × Option Nat)} (h : consistentOccs O = true) :
+    termTableMixed O = termTable O := by
+  unfold termTableMixed termTable
+  rw [resolvedOccs_consistent h]
+
+theorem eq_of_names_codes (f : String → Int) : ∀ (ts ts2 : List STerm),
+    ts.map (·.name) = ts2.map (·.name) → (∀ t ∈ ts, t.code = f t.name) →
+    (∀ t ∈ ts2, t.code = f t.name) → ts = ts2 := by
+  intro ts
+  induction ts with
+  | nil =>
+    intro ts2 hn _ _
+    cases ts2 with
+    | nil => rfl
+    | cons _ _ => cases hn
+  | cons a rest ih =>
+    intro ts2 hn h1 h2
+    cases ts2 with
+    | nil => cases hn
+    | cons b rest2 =>
+      simp only [List.map_cons, List.cons.injEq] at hn
+      have hab : a = b := by
+        obtain ⟨an, ac⟩ := a
+        obtain ⟨bn, bc⟩ := b
+        have ha := h1 _ List.mem_cons_self
+        have hb := h2 _ List.mem_cons_self
+        simp only at ha hb hn
+        rw [ha, hb, hn.1]
+      rw [hab, ih rest2 hn.2 (fun t ht => h1 t (List.mem_cons_of_mem _ ht))
+        (fun t ht => h2 t (List.mem_cons_of_mem _ ht))]
+
+theorem declSTerm_code_ne {q : String × Option Nat} {k : Nat} (h : q.2 = some k) :
+    (declSTerm q).code = (k : Int) ∧ (declSTerm q).code ≠ -1 := by
+  obtain ⟨n, o⟩ := q
+  simp only at h
+  subst h
+  refine ⟨rfl, ?_⟩
+  show (k : Int) ≠ -1
+  omega
+
+theorem declSTerm_code_some {q : String × Option Nat} (h : (declSTerm q).code ≠ -1) :
+    ∃ k, q.2 = some k ∧ (declSTerm q).code = (k : Int) := by
+  obtain ⟨n, o⟩ := q
+  cases o with
+  | none => exact absurd rfl h
+  | some k => exact ⟨k, rfl, rfl⟩
+
+theorem explicitConsistent_declSTerm {O : List (String × Option Nat)} :
+    ExplicitConsistent (O.map declSTerm) ↔ explicitConsistentOccs O = true := by
+  constructor
+  · intro h
+    unfold explicitConsistentOccs
+    simp only [List.all_eq_true, Bool.or_eq_true, bne_iff_ne, ne_eq, beq_iff_eq,
+      Option.isNone_iff_eq_none]
+    intro p hp q hq
+    by_cases hn : p.1 = q.1
+    · cases hpk : p.2 with
+      | none => exact Or.inl (Or.inl (Or.inr rfl))
+      | some k =>
+        cases hqk : q.2 with
+        | none => exact Or.inl (Or.inr rfl)
+        | some k' =>
+          refine Or.inr ?_
+          have := h _ (List.mem_map.mpr ⟨p, hp, rfl⟩) _ (List.mem_map.mpr ⟨q, hq, rfl⟩) hn
+            (declSTerm_code_ne hpk).2 (declSTerm_code_ne hqk).2
+          rw [(declSTerm_code_ne hpk).1, (declSTerm_code_ne hqk).1] at this
+          have : k = k' := by exact_mod_cast this
+          rw [this]
+    · exact Or.inl (Or.inl (Or.inl hn))
+  · intro h p hp q hq hn hpc hqc
+    obtain ⟨p0, hp0, rfl⟩ := List.mem_map.mp hp
+    obtain ⟨q0, hq0, rfl⟩ := List.mem_map.mp hq
+    obtain ⟨k, hk, hkc⟩ := declSTerm_code_some hpc
+    obtain ⟨k', hk', hkc'⟩ := declSTerm_code_some hqc
+    rw [hkc, hkc', explicitConsistentOccs_iff h p0 hp0 q0 hq0 hn k k' hk hk']
+
+/-- `set_sgrammar` on occurrences with consistent explicit codes: first occurrences, each with
+the explicit code of its name -/
+theorem dedup_assign_mixed {O : List (String × Option Nat)} (h : explicitConsistentOccs O = true) :
+    dedupTerms (O.map declSTerm) [] = .ok ((resolvedOccs O).map declSTerm) ∧
+      assignCodes ((resolvedOccs O).map declSTerm) ((resolvedOccs O).map declSTerm) 256
+        = termTableMixed O := by
+  refine ⟨?_, assignCodes_eq_assignFree _ _ 256⟩
+  obtain ⟨hok, hspec⟩ := dedupTerms_spec (O.map declSTerm)
+  obtain ⟨ts, hts⟩ := hok (explicitConsistent_declSTerm.mpr h)
+  obtain ⟨_, hnames, hcodes⟩ := hspec ts hts
+  rw [hts]
+  congr 1
+  apply eq_of_names_codes (fun n => (declSTerm (n, explicitCode O n)).code)
+  · have e1 : (O.map declSTerm).map (·.name) = O.map (·.1) := by
+      rw [List.map_map]; rfl
+    have e2 : ((resolvedOccs O).map declSTerm).map (·.name) = (firstOccs O []).map (·.1) := by
+      rw [resolvedOccs, List.map_map, List.map_map]; rfl
+    have := firstOccs_names O []
+    simp only [List.contains_nil, Bool.not_false] at this
+    rw [List.filter_eq_self.mpr (fun _ _ => rfl)] at this
+    rw [hnames, e1, e2, this]
+  · intro t ht
+    obtain ⟨h1, h2⟩ := hcodes t ht
+    cases hc : explicitCode O t.name with
+    | some k =>
+      obtain ⟨q, hq, hqn, hqk⟩ := explicitCode_some hc
+      have hq' := declSTerm_code_ne hqk
+      show t.code = (k : Int)
+      exact h2 _ ⟨declSTerm q, List.mem_map.mpr ⟨q, hq, rfl⟩, hqn, hq'.1, by omega⟩
+    | none =>
+      apply Classical.byContradiction
+      intro hne
+      have hne' : t.code ≠ -1 := fun h => hne (by rw [h]; rfl)
+      obtain ⟨p, hp, hpn, hpc, hc1⟩ := h1 hne'
+      obtain ⟨q, hq, rfl⟩ := List.mem_map.mp hp
+      obtain ⟨k, hk, _⟩ := declSTerm_code_some (hpc ▸ hc1)
+      have := explicitCode_none hc q hq hpn
+      rw [hk] at this; cases this
+  · intro t ht
+    obtain ⟨p, hp, rfl⟩ := List.mem_map.mp ht
+    obtain ⟨p0, _, rfl⟩ := List.mem_map.mp hp
+    rfl
+
 end Yaep
